@@ -91,7 +91,33 @@ def pick (l : List (Kind × Nat)) (acc : Kind × Nat) : Kind × Nat :=
 def vals (s : Str) : List (Kind × Nat) := scanners.map (fun ks => (ks.1, ks.2 s))
 
 /-- longest match, earlier kind on ties; `(Error, 0)` when nothing matches -/
-def best (s : Str) : Kind × Nat := pick (vals s) (.Error, 0)
+def best0 (s : Str) : Kind × Nat := pick (vals s) (.Error, 0)
+
+/-- first byte of the UTF-8 encoding -/
+def utf8Lead (c : Char) : Nat :=
+  let v := c.toNat
+  if v < 0x80 then v else if v < 0x800 then 0xC0 + v / 64 else if v < 0x10000 then 0xE0 + v / 4096
+  else 0xF0 + v / 262144
+
+def isKeyword : Kind → Bool
+  | .End | .Loop | .Repeat | .Bits | .Let | .ResetRandom | .While | .Declare | .Program | .Init | .Memory
+  | .Def | .Call => true
+  | _ => false
+
+/-- A property of the logos-generated automaton, found by the token-dump correspondence: when a
+keyword is followed by a character that does not continue an identifier but whose first UTF-8 byte
+is also the first byte of some `Nd` character, the automaton has already left the keyword's
+accepting state along the identifier pattern and reports `Ident` (same span) instead of the
+keyword.  (Such a character is itself an `Error` token, so the text is rejected either way.) -/
+def keywordQuirk (s : Str) (k : Kind) (n : Nat) : Kind :=
+  if isKeyword k then
+    match s.drop n with
+    | c :: _ => if !(isIdC c) && ndLeadBytes.contains (utf8Lead c) then .Ident else k
+    | [] => k
+  else k
+
+/-- what the lexer recognises at the head of `s`: kind and length in characters -/
+def best (s : Str) : Kind × Nat := (keywordQuirk s (best0 s).1 (best0 s).2, (best0 s).2)
 
 /-- length (in characters) of the token or error character at the head of a non-empty, non-blank,
 non-comment position -/
